@@ -79,7 +79,9 @@ def run(tier, seed):
     scripts = uniq(scripts + gs.printed, key=lambda s: s["src"])
     if tier == "thorough":
         gb = tlc.run("Critic", GEN % ("FALSE", "TRUE"), workers=NCPU, timeout=1500, heap="16g")
-        scripts = uniq(scripts + gb.printed, key=lambda s: s["src"])
+        chk.cov["scripts_enumerated_big"] = len(gb.printed)
+        big = gb.printed if len(gb.printed) <= 12000 else random.Random(seed).sample(gb.printed, 12000)       # TLC enumerates all; a seeded sample is replayed
+        scripts = uniq(scripts + big, key=lambda s: s["src"])
     gd = tlc.run("Critic", GEN.replace("INIT Init", "INIT InitDeep") % ("FALSE", "FALSE"), workers=4, timeout=900)
     if gd.violated or len(gd.printed) < 10: raise FrameworkError("Critic(deep): %s, %d scripts" % (gd.violated, len(gd.printed)))
     scripts = uniq(scripts + gd.printed, key=lambda s: s["src"])
